@@ -20,7 +20,7 @@ use std::task::{Context, Poll};
 use unic_langid::LanguageIdentifier;
 
 const LOC_POOL: [&str; 4] = ["en", "pl", "de", "fr"];
-const ID_POOL: [&str; 5] = ["a", "b", "c", "d", "e"];
+const ID_POOL: [&str; 7] = ["a", "b", "c", "d", "e", "A", "B"]; // `a`/`A`, `b`/`B` differ only in ASCII case: DIFFERENT ids
 
 fn idx_of(pool: &[&str], x: &str) -> usize {
     pool.iter().position(|p| *p == x).unwrap_or(pool.len())
